@@ -291,6 +291,14 @@ def _expr_run(res: CheckResult, layouts: bool) -> None:
             raise MachineryError("ICExpr family {} is vacuous".format(name))
         res.traces += st["cases"]
         res.evaluations += st["lines_compared"]
+        if not res.violations:
+            # the same cases as postconditions and on coroutine functions (every call argument is listed there too)
+            sub = cases if len(cases) <= 1500 else rng.sample(cases, 1500)
+            for role in ("ensure", "require_async", "ensure_async"):
+                st2 = E.check_cases(res, EXPR_CLAUSES, sub, viol, py, ic, role=role)
+                st["cases_" + role] = st2["cases"]
+                res.traces += st2["cases"]
+                res.evaluations += st2["lines_compared"]
         if layouts and not res.violations:
             st.update(E.check_layouts(res, EXPR_CLAUSES, cases, viol, ic, rng, 12 if res.tier == "quick" else 60))
             res.traces += st.get("layout_cases", 0)
